@@ -3,6 +3,7 @@
 #include <cocls/future.h>
 #include <cocls/async.h>
 #include <cocls/callback_awaiter.h>
+#include <optional>
 #include <thread>
 #include <vector>
 
@@ -80,7 +81,7 @@ void deadlock_classifier() {
 void dsim_scenario() {
     dsim::on_deadlock(deadlock_classifier);
     int nw = 1 + dsim::choose(6);       // more than three ready coroutines make the carried suspend point grow from inline to heap storage
-    int wk[6]; for (int i = 0; i < nw; i++) wk[i] = dsim::choose(6);
+    int wk[6]; for (int i = 0; i < nw; i++) wk[i] = dsim::choose(8);
     int rk = dsim::choose(6);
     bool colocate = dsim::flip();
     bool reuse_custom = dsim::flip();
@@ -91,6 +92,8 @@ void dsim_scenario() {
         cocls::future<void> gate; auto gate_p = gate.get_promise();
         cocls::future<void> inner; cocls::promise<void> inner_p;
         CustomAwt customs[6];
+        struct FnCtx { Fut *f; int i; } fnctx[6];
+        std::optional<cocls::co_awaiter<Fut>> fn_awts[6];      // co_awaiter used as a callback awaiter through await_suspend(resume_fn, ctx); lives until fired
         {
             cocls::promise<vs::Counted> p = f.get_promise();
             bool via_coro = rk >= 4;
@@ -117,6 +120,18 @@ void dsim_scenario() {
                     cocls::co_awaiter<Fut> aw(f);
                     if (!aw.subscribe(&customs[i])) observe_and_release(f, i);   // already resolved: not registered, caller proceeds itself
                     break; }
+                case 6: {   // the force_ variants of the blocking waits (same wait, no "blocking inside a coroutine" assertion)
+                    dsim::cell_set(STARTED + i, 1);
+                    if (i & 1) { try { f.force_wait(); } catch (...) {} } else f.force_sync();
+                    observe_and_release(f, i); break; }
+                case 7: {   // register a plain function instead of a coroutine: co_awaiter::await_suspend(resume_fn, user_ctx)
+                    dsim::cell_set(STARTED + i, 1);
+                    fnctx[i] = FnCtx{&f, i};
+                    fn_awts[i].emplace(f);
+                    bool parked = fn_awts[i]->await_suspend([](cocls::awaiter *, void *ctx) noexcept -> cocls::suspend_point<void> {
+                        auto *c = static_cast<FnCtx *>(ctx); observe_and_release(*c->f, c->i); return {}; }, &fnctx[i]);
+                    if (!parked) observe_and_release(f, i);
+                    break; }
                 default: {
                     dsim::cell_set(STARTED + i, 1);
                     cocls::callback_await<Fut &>([&f, i](cocls::await_result<vs::Counted> r) {
@@ -136,11 +151,11 @@ void dsim_scenario() {
                     cocls::future<void> futs[6]; bool used[6] = {false, false, false, false, false, false};
                     for (int i = 0; i < nw; i++) {
                         if (wk[i] <= 1) { futs[i] << [&] { return coro_waiter(f, gate, i, wk[i]).start(); }; used[i] = true; }
-                        else if (wk[i] >= 4) start_waiter(i);
+                        else if (wk[i] == 4 || wk[i] == 5 || wk[i] == 7) start_waiter(i);
                     }
                     for (int i = 0; i < nw; i++) if (used[i]) futs[i].wait();
                 });
-                for (int i = 0; i < nw; i++) if (wk[i] == 2 || wk[i] == 3) th.emplace_back([&, i] { start_waiter(i); });
+                for (int i = 0; i < nw; i++) if (wk[i] == 2 || wk[i] == 3 || wk[i] == 6) th.emplace_back([&, i] { start_waiter(i); });
             } else {
                 for (int i = 0; i < nw; i++) th.emplace_back([&, i] {
                     if (wk[i] <= 1) coro_waiter(f, gate, i, wk[i]).join(); else start_waiter(i);
